@@ -8,6 +8,11 @@ from `cls().config` after instantiation.  Per case one extension E and one of th
                 and a document exercising E (1-3 pieces of E's syntax + 0-3 general pieces):
                     markdown(doc, extensions=[f], extension_configs={f: O})  for f in  'E', 'markdown.extensions.E',
                     'markdown.extensions.E:Cls'   and   markdown(doc, extensions=[Cls(**O)])
+                and  i = Cls(**O); a = Markdown(extensions=[i]); b = Markdown(extensions=[i]); a.convert(doc)   (ONE instance in
+                TWO live Markdown objects, the OLDER one converts - the string forms build an instance per object, so an
+                extension keeping per-Markdown state on itself differs here; every check that uses the naming forms, i.e. forms,
+                boolstr and unknown, includes it.  footnotes with UNIQUE_IDS: the ids carry the number of resets the instance has
+                seen (documented), compared with the string form after the same number of resets)
                 must give the same output (or all raise the same exception type); a fifth variant mixes E with other
                 extensions and passes O keyed by the form used.  Also: makeExtension() of the module returns the
                 entry point's class, and the entry point's module is `markdown.extensions.E`.
@@ -203,6 +208,21 @@ def convert(doc, exts, configs):
         return ('exc', type(e).__name__)
 
 
+def convert_first_of_two(doc, exts, configs, extra_resets=0):
+    """two live Markdown objects built from the same `extensions` list (the very same objects for instances: "the instance
+    will be used as-is"), then the conversion is run on the one built FIRST: ('ok', html) or ('exc', type name)"""
+    import markdown
+    try:
+        first = markdown.Markdown(extensions=exts, extension_configs=copy.deepcopy(configs))
+        second = markdown.Markdown(extensions=exts, extension_configs=copy.deepcopy(configs))
+        for _ in range(extra_resets): first.reset()
+        return ('ok', first.convert(doc)) if second is not first else ('exc', 'same object')
+    except RecursionError:
+        return ('exc', 'RecursionError')
+    except Exception as e:
+        return ('exc', type(e).__name__)
+
+
 def form_names(name, mod, clsname):
     return {'short': name, 'dotted': 'markdown.extensions.' + name, 'class': '%s:%s' % (mod, clsname)}
 
@@ -218,6 +238,19 @@ def run_forms(B, name, opts, doc, others=()):
         res['instance'] = convert(doc, [inst] + list(others), {})
     except Exception as e:
         res['instance'] = ('exc', type(e).__name__)
+    # one instance given to two live Markdown objects, the older one converts (naming by string builds an instance per object)
+    try:
+        inst = cls(**copy.deepcopy(opts))
+        res['instance_shared_by_two'] = convert_first_of_two(doc, [inst] + list(others), {})
+        if name == 'footnotes' and inst.getConfig('UNIQUE_IDS'):
+            # documented state of the INSTANCE: UNIQUE_IDS prefixes the ids with the number of reset() calls the extension instance has
+            # seen, and every Markdown() resets its extensions once: an instance in two objects has seen two.  The string forms give
+            # each object an instance of its own, so the comparable run is: two objects, the first one reset once more.
+            short = form_names(name, mod, clsname)['short']
+            ref2 = convert_first_of_two(doc, [short] + list(others), {short: opts} if opts else {}, extra_resets=1)
+            res['instance_shared_by_two'] = res['short'] if res['instance_shared_by_two'] == ref2 else ('differs', 'shared instance: %s  -- by name after two resets: %s' % (res['instance_shared_by_two'][1][:600], ref2[1][:600]))
+    except Exception as e:
+        res['instance_shared_by_two'] = ('exc', type(e).__name__)
     return res
 
 
